@@ -6,7 +6,6 @@
 package main
 
 import (
-	"bufio"
 	"encoding/json"
 	"flag"
 	"fmt"
@@ -41,6 +40,8 @@ type summary struct {
 	FailedCases    map[string][]string `json:"failed_cases"`
 	Samples        []string            `json:"samples"`
 	NotExpressible map[string]int      `json:"not_expressible"`
+	CaseLines      int                 `json:"case_lines"`
+	ImplLines      int                 `json:"impl_lines"`
 }
 
 var identRe = regexp.MustCompile(`^[A-Za-z][A-Za-z0-9_-]*$`)
@@ -347,12 +348,16 @@ func roundTrip(bus *acmelib.Bus, pb lib.PBus) (map[string]string, string, *lib.P
 		case strings.Contains(e, "lower then") || strings.Contains(e, "greater then"):
 			sig += "-attribute-range"
 		}
-		res[sig] = "the exported text is refused: " + e
+		res[sig] = "the exported text is refused: " + e + " | line: " + strings.TrimSpace(errorLine(text, e))
 		return res, text, nil
 	}
 	pb2 := lib.WalkBus(bus2)
-	if path, a, b, same := lib.DiffTok(lib.TokBus(pb), lib.TokBus(pb2)); !same {
-		res[lib.DiffSignature("c11", path)] = fmt.Sprintf("%s: original %s, after export+import %s", path, a, b)
+	// every difference of the case is reported (one entry per signature, the first path of each kept)
+	for _, d := range lib.DiffTokAll(lib.TokBus(pb), lib.TokBus(pb2), 40) {
+		sig := lib.DiffSignature("c11", d[0])
+		if _, ok := res[sig]; !ok {
+			res[sig] = fmt.Sprintf("%s: original %s, after export+import %s", d[0], d[1], d[2])
+		}
 	}
 	return res, text, &pb2
 }
@@ -392,12 +397,18 @@ func reclassify(fs map[string]string, bus *acmelib.Bus, pb lib.PBus) map[string]
 				sig = "c11-can-id-clash-refused"
 			}
 		case strings.HasPrefix(sig, "c11-import-refuses-export") && (strings.Contains(d, "greater then") || strings.Contains(d, "lower then")):
-			if hasNegativeHex(bus, pb) {
-				sig = "c11-hex-attribute-negative-bound"
+			// only when the refused line IS the BA_DEF_ of a hex attribute with a negative bound
+			for name := range negativeHexNames(pb) {
+				if strings.Contains(d, "| line: BA_DEF_") && strings.Contains(d, "\""+name+"\" HEX ") {
+					sig = "c11-hex-attribute-negative-bound"
+				}
 			}
 		case strings.HasSuffix(sig, "-attrs") || sig == "c11-attrs" || sig == "c11-nodes":
-			if hasNegativeHex(bus, pb) && strings.Contains(d, "/1/") {
-				sig = "c11-hex-attribute-negative-bound"
+			// only a difference AT such an attribute (its definition, element 1 of the assignment)
+			for name := range negativeHexNames(pb) {
+				if strings.Contains(d, "["+name+"]/1/") {
+					sig = "c11-hex-attribute-negative-bound"
+				}
 			}
 		case sig == "c11-messages-receivers-#len" || sig == "c11-messages-receivers":
 			// only when the message concerned has no signal to carry the receivers
@@ -410,6 +421,29 @@ func reclassify(fs map[string]string, bus *acmelib.Bus, pb lib.PBus) map[string]
 		res[sig] = d
 	}
 	return res
+}
+
+// negativeHexNames: the (sanitised) names of the hex-format integer attributes with a negative bound
+func negativeHexNames(pb lib.PBus) map[string]bool {
+	out := map[string]bool{}
+	add := func(l []lib.PAsg) {
+		for _, a := range l {
+			if a.Def.Kind == 1 && a.Def.Hex && (a.Def.Mn < 0 || a.Def.Mx < 0) {
+				out[lib.ClearSpaces(a.Name)] = true
+			}
+		}
+	}
+	add(pb.Attrs)
+	for _, n := range pb.Nodes {
+		add(n.Attrs)
+	}
+	for _, m := range pb.Msgs {
+		add(m.Attrs)
+		for _, s := range m.Sigs {
+			add(s.Attrs)
+		}
+	}
+	return out
 }
 
 func hasNegativeHex(bus *acmelib.Bus, pb lib.PBus) bool {
@@ -461,9 +495,7 @@ func main() {
 	flag.Parse()
 
 	sum := &summary{Hist: map[string]int{}, Failures: map[string]failure{}, FailedCases: map[string][]string{}, NotExpressible: map[string]int{}}
-	cf, _ := os.Create(filepath.Join(*out, "cases.txt"))
-	imf, _ := os.Create(filepath.Join(*out, "impl.txt"))
-	cases, impl := bufio.NewWriterSize(cf, 1<<20), bufio.NewWriterSize(imf, 1<<20)
+	cases, impl := lib.CreateLineFile(filepath.Join(*out, "cases.txt")), lib.CreateLineFile(filepath.Join(*out, "impl.txt"))
 	r := &lib.Rng{S: *seed}
 	n := 1500
 	if *tier == "thorough" {
@@ -549,10 +581,15 @@ func main() {
 			sum.Samples = append(sum.Samples, text)
 		}
 	}
-	cases.Flush()
-	impl.Flush()
-	cf.Close()
-	imf.Close()
+	sum.CaseLines, sum.ImplLines = cases.N, impl.N
+	if err := cases.Finish(); err != nil {
+		fmt.Println("cannot write cases.txt:", err)
+		os.Exit(4)
+	}
+	if err := impl.Finish(); err != nil {
+		fmt.Println("cannot write impl.txt:", err)
+		os.Exit(4)
+	}
 	keys := []string{}
 	for k := range sum.Failures {
 		keys = append(keys, k)
